@@ -667,8 +667,16 @@ pub fn c07_c08_big(which: &'static str, thorough: bool) -> Space {
 // ------------------------------------------------------------------ C12 / C15 at large orders
 
 pub fn c12_big(thorough: bool) -> Space {
-    let cs = cases(thorough);
-    Space::new("c12.big", vec![u64::from(thorough)], cs.len() as u64, format!("the eight unary predicates on structured digraphs at orders {:?} in five representations, and the three binary relations between each shape, its converse, its symmetric closure and another shape of the same order", big_orders(thorough)), move |idx, ctx| {
+    // plus order 258: the star's centre has degree 257, which a degree kept in 8 bits would take
+    // for the leaves' degree 1
+    let cs = {
+        let mut c: Vec<(usize, usize)> = cases(thorough).to_vec();
+        for f in 0..big_shapes(258).len() {
+            c.push((258, f));
+        }
+        Arc::new(c)
+    };
+    Space::new("c12.big", vec![u64::from(thorough)], cs.len() as u64, format!("the eight unary predicates on structured digraphs at orders {:?} and 258 in five representations, and the three binary relations between each shape, its converse, its symmetric closure and another shape of the same order", big_orders(thorough)), move |idx, ctx| {
         let (n, f) = cs[idx as usize];
         let shapes = big_shapes(n);
         let (name, abs) = &shapes[f];
